@@ -27,6 +27,10 @@ THEOREMS = {
     "C06_model_is_source_select_next_plate": "the Gallina translation of the whole function select_next_plate regenerated from /repo's current scoring/main.py on this run (Generated/SrcScoring.v) equals, for all arguments, the model select_next (batch_plate_ids None = []; the code returns the Plate screen.get_plate(id), the model the id)",
     "C06_model_is_source_score_chunk": "the translation of the whole function score_chunk regenerated on this run equals, for all arguments and ANY scorer (a function from the dict of plates it is handed to the dict of scores it returns), the model: score_chunk = what the scorer is handed, chunk_holder_of_answer = the holder filled from its answer",
     "C06_model_is_source_chunk_holder": "instance: with a scorer returning one score per handed plate the translated score_chunk is the model's chunk_holder",
+    "C06_model_is_source_add_score": "the translation of ChunkedScoresHolder.add_score (arrays as lists; `a[i] = v` raising IndexError past the end) regenerated on this run equals the model add_score on the representation (scores, plate_ids, current_index) of a holder",
+    "C06_model_is_source_combine": "the translation of ChunkedScoresHolder.combine equals the model h_combine: ALL slots of both concatenated, current_index += len(other.scores)",
+    "C06_model_is_source_plate_id_with_minimum_score": "the translation of plate_id_with_minimum_score (None -> argmin over all slots; else isin mask, masked arrays, argmin, item) equals the model min_plate: id of the first slot of minimal score among the eligible ones, ValueError when none",
+    "C06_model_is_source_concat": "the translation of ChunkedScoresHolder.concat (ValueError on [], left fold of combine) equals the model h_concat",
     "C06_array_split_concat": "np.array_split model: the n >= 1 sections concatenate to the list (also n > len)",
     "C06_array_split_sizes": "there are n sections; the first len mod n have len/n+1 elements, the others len/n",
     "C06_candidates_spec": "candidate ids are strictly ascending and are exactly the ids of screen plates that have an unobserved row and are not in the batch",
@@ -71,7 +75,11 @@ EXPLANATION = ("Tie to the code, two ways.  (1) Source-translation links: select
                "(ValueError on [], the element itself for one, else the disjunction of the selection vectors), a.combine(b) = subset_union, "
                "filter_dataset_to_unique_treatments(x) = uniq_first [] x, len(d), ChunkedScoresHolder(n) = holder_new, scorer.score(plates=d, ...) "
                "= an arbitrary function of d, scores_holder.add_score(k, v) = add_score, a Plate used as a ScreenSubset = its rows; logger calls "
-               "are skipped.  These primitives are the ones the correspondence below exercises (kinds split, uniq, holder, chunk, pipeline).  "
+               "are skipped.  ChunkedScoresHolder.add_score / combine / plate_id_with_minimum_score / concat are translated too (configurations "
+               "C06_ADD_SCORE, C06_COMBINE, C06_MIN_SCORE, C06_CONCAT; self.scores / self.plate_ids / self.current_index are state variables, the "
+               "numpy arrays lists) with primitives a[i] = v (list_set, IndexError outside the array), np.concatenate((a, b)) = a ++ b, len, "
+               "a.argmin() = position of the first minimum (ValueError on empty), a[i].item(), np.isin(a, l), a[mask] (boolean mask), l[0], l[1:], "
+               "x.combine(y) = h_combine inside concat; __init__, get_score, save_h5/load_h5 are not translated (correspondence only).  These primitives are the ones the correspondence below exercises (kinds split, uniq, holder, chunk, pipeline).  "
                "(2) the differential correspondence.  "
                "Model: Model/Scores.v (screen rows, plates, candidates, np.array_split, first-occurrence unique, batch conditioning, "
                "ChunkedScoresHolder with zero-initialised slots, argmin over the eligibility mask, select_next_plate, whole pipeline). "
